@@ -58,6 +58,12 @@ type VerifTransport struct {
 	Dropped [][]byte // frames refused because len > MTU, copies
 
 	QueueSize uint64 // what GetSendQueueSize reports (socket send queue length of a real transport)
+
+	// Stall, if non-nil, makes sendFrame behave like a socket write that blocks: it signals Entered and waits for a value
+	// on Stall BEFORE it looks at the frame bytes (a blocked conn.Write still holds the caller's buffer).
+	Stall   chan struct{}
+	Entered chan struct{}
+	closeCh chan struct{}
 }
 
 // NewVerifTransport makes an in-memory transport with the given MTU and scope.
@@ -65,16 +71,28 @@ func NewVerifTransport(mtu int, scope defn.Scope) *VerifTransport {
 	t := &VerifTransport{}
 	t.makeTransportBase(defn.MakeNullFaceURI(), defn.MakeNullFaceURI(), PersistencyPermanent, scope, defn.PointToPoint, mtu)
 	t.running.Store(true)
+	t.closeCh = make(chan struct{})
 	return t
 }
 
 func (t *VerifTransport) String() string                  { return "VerifTransport" }
 func (t *VerifTransport) SetPersistency(Persistency) bool { return true }
 func (t *VerifTransport) GetSendQueueSize() uint64        { return t.QueueSize }
-func (t *VerifTransport) runReceive()                     {}
-func (t *VerifTransport) Close()                          { t.running.Store(false) }
+
+// runReceive blocks until Close (a link service started with Run stops its send loop when runReceive returns).
+func (t *VerifTransport) runReceive() { <-t.closeCh }
+
+func (t *VerifTransport) Close() {
+	if t.running.Swap(false) {
+		close(t.closeCh)
+	}
+}
 
 func (t *VerifTransport) sendFrame(frame []byte) {
+	if t.Stall != nil {
+		t.Entered <- struct{}{}
+		<-t.Stall
+	}
 	c := make([]byte, len(frame))
 	copy(c, frame)
 	if len(frame) > t.MTU() {
